@@ -194,19 +194,25 @@ def run(pid, spec, args, seed, t0, outdir, scratch):
         elif fact.get("status") == "undecided":
             undecided.append("static:%s: %s" % (fact["name"], fact.get("detail", "")))
 
-    # ---- replay + report
+    # ---- replay + report: one replay file and one VIOLATION line per cell (all failed obligations are listed in it)
     vlines = []
-    seen_rep = set()
+    by_cell = {}
     for r, fl in violations:
+        by_cell.setdefault(r["cell"], (r, []))[1].append(fl)
+    nrep = 0
+    for cid in sorted(by_cell):
+        r, fls = by_cell[cid]
         c = r.get("_cell")
-        key = (r["cell"], fl["property"])
-        if key in seen_rep:
-            continue
-        seen_rep.add(key)
-        rp = os.path.join(outdir, "replay_%s_%s.txt" % (re.sub(r"[^A-Za-z0-9_.-]", "_", r["cell"]),
-                                                          re.sub(r"[^A-Za-z0-9_.-]", "_", fl["property"])))
-        confirmed = R.replay_violation(pid, c, r, fl, rp, scratch)
-        line = "VIOLATION property=%s replay=%s" % (pid, rp)
+        # prefer a functional obligation (postcondition / assertion) with a trace for the replay
+        fls_sorted = sorted(fls, key=lambda f: (0 if re.search(r"postcondition|assertion", f["property"]) else 1, 0 if f.get("trace") else 1))
+        main = fls_sorted[0]
+        rp = os.path.join(outdir, "replay_%s.txt" % re.sub(r"[^A-Za-z0-9_.-]", "_", cid))
+        nrep += 1
+        if nrep <= 24:
+            confirmed = R.replay_violation(pid, c, r, main, rp, scratch, all_failed=fls)
+        else:
+            confirmed = R.replay_violation(pid, None, r, main, rp, scratch, all_failed=fls)
+        line = "VIOLATION property=%s replay=%s obligation=%s failed_obligations=%d" % (pid, rp, main["property"], len(fls))
         if not confirmed:
             line += " no-failing-input-found"
         vlines.append(line)
